@@ -20,6 +20,7 @@ func init() {
 			"R2": "predicate definitions (truth tables): ShouldPause, auto-open, alive",
 			"R3": "handler always scheduled: continue step returns delay(handler); delay runs the handler unless cancelled; every other exit of the continue step returns a value known to be an error",
 			"R4": "no silent drop in the open-game callback unless excluded by the set-up guard (participants provenance)",
+			"R7": "a known, seated-in player's settlement-finished report reaches the open-game gate under that player's own id",
 			"R6": "the open-game gate is constructed with a positive time limit (constant, or guarded > 0), so the 'or the open-game timeout elapses' arm exists",
 			"R5": "the participants handed to set-up are the whole list of settled participants that still have chips, passed settle → continue → handler unchanged",
 		},
@@ -107,6 +108,7 @@ func checkBoolFunc(p *Prog, f *ssa.Function, atom atomFn, names []string, formul
 
 func checkC08(c *Ctx) {
 	p := c.P
+	checkSettlementFinish(c, "R7")
 	lc := p.lifecycle()
 	if lc.continueFn == nil || lc.creator == nil || lc.openFn == nil {
 		c.Bad("R1", "anchors", "-", "continue step / creator not found")
@@ -253,7 +255,7 @@ func checkC08(c *Ctx) {
 	}
 	if pauseFn != nil {
 		ok, why := checkBoolFunc(p, pauseFn, func(g Guard) (string, bool, bool) {
-			if g.Cond.IsCall("TableBlindState.IsBreaking") {
+			if g.Cond.IsCall("TableBlindState.IsBreaking") && len(g.Cond.Strip().Args) >= 1 && g.Cond.Strip().Args[0].Strip().IsField("TableState", "BlindState") {
 				return "break", g.Val, true
 			}
 			if isF, v := few(g); isF {
